@@ -8,6 +8,7 @@ and without compression.
 import json
 import time
 
+import codecseq
 from common import Scratch, Verdict, build_harness, harness_json, log, marker_json, require_ok, run_tlc, seed, write_evidence
 
 PROP = "C08"
@@ -34,8 +35,13 @@ def run(tier):
                 v.violation(x["sig"], x["detail"], x["replay"])
         log("c08: %d lattice points from TLC x %d seeds, %d evaluations, %d violations" % (
             len(gens), len(seeds), sum(r["evaluations"] for r in reps), sum(len(r["violations"]) for r in reps)))
+        # compressors (and the codecs that use them) called more than once, after calls that failed: CodecSeq.tla
+        cs = codecseq.run_codecseq(s, h, tier, PROP)
+        for x in cs["violations"]:
+            v.violation(x["sig"], x["detail"], x["replay"])
         unlisted = v.finish()
-        cov = dict(evaluations=sum(r["evaluations"] for r in reps), distinct_nontrivial=max(r["distinct"] for r in reps),
+        cov = dict(evaluations=sum(r["evaluations"] for r in reps) + cs["histories"], distinct_nontrivial=max(r["distinct"] for r in reps) + cs["distinct_prefixes"],
+                   codec_histories={k: cs[k] for k in cs if k != "violations"},
                    rule="one case per point of the lattice {lz4 body, lz4 payload, snappy body} x sizes (0..17, 2^k-1..2^k+1 for k=5..17, "
                         "256 KiB, 1 MiB, thorough also 4 and 16 MiB for bodies) x contents (zeros, ones, text, random, sparse, period p, "
                         "target ratio r up to 250:1), materialised with seeded random bytes; compress->decompress must reproduce the input, "
